@@ -6,7 +6,7 @@
    (key, cell) entries; [ord] is Go's map iteration order per round (any permutation); [breaker] the optional tie-breaker
    (any function). *)
 From Coq Require Import List ZArith Bool Permutation Sorted.
-From V Require Import Model.Dp Model.Clique Proofs.DpKnapsack Proofs.DpSolvers Proofs.DpBest Proofs.DpJudge Proofs.DpPool Proofs.CliqueBK Proofs.CliqueSpec.
+From V Require Import Model.Dp Model.Clique Proofs.DpKnapsack Proofs.DpSolvers Proofs.DpBest Proofs.DpJudge Proofs.DpPool Proofs.CliqueBK Proofs.CliqueSpec Proofs.DpStable.
 Import ListNotations.
 Local Open Scope Z_scope.
 
@@ -120,3 +120,15 @@ Theorem c18_cliques_model_eq_spec : forall g n, sym g -> irrefl g -> forall orde
   exists cs, max_cliques g order = Some cs /\ canon cs = canon (spec_cliques g n).
 Proof. exact cliques_model_eq_spec. Qed.
 Print Assumptions c18_cliques_model_eq_spec.
+
+(* what the differential run compares with the model (run with the identity order) does not depend on Go's map order:
+   for any two families of iteration orders, the cell of every key <= maxValue and the cell of the least attainable total
+   above maxValue coincide (the tie-breaker being a function of its two arguments) *)
+Theorem c18_solve_stable : forall vals, Forall (fun v => 0 < v) vals ->
+  forall brk maxV allow ord1 ord2, (forall k dp, Permutation (ord1 k dp) dp) -> (forall k dp, Permutation (ord2 k dp) dp) ->
+  forall n, (n <= length vals)%nat ->
+  (forall k, k <= maxV -> lookup k (fst (solve brk maxV allow ord1 vals n)) = lookup k (fst (solve brk maxV allow ord2 vals n))) /\
+  (allow = true -> forall t, least_over vals (length vals) maxV t ->
+     lookup t (fst (solve brk maxV allow ord1 vals n)) = lookup t (fst (solve brk maxV allow ord2 vals n))).
+Proof. exact solve_stable. Qed.
+Print Assumptions c18_solve_stable.
